@@ -209,8 +209,9 @@ impl<R: Round, const B: Word> FBig<R, B> {
         let new_context = Context::new(precision);
 
         // shrink if necessary
-        let repr = if self.context.precision > precision {
-            // it also handles unlimited precision
+        let repr = if self.context.precision > precision || !self.context.is_limited() {
+            // shrinking from a larger or from the unlimited precision
+            // (repr_round does nothing when the new precision is unlimited)
             new_context.repr_round(self.repr)
         } else {
             Exact(self.repr)
